@@ -239,6 +239,24 @@ def run(prop, tier, seed, replay=None):
             cases.append(c)
             nv += 1
         rep.extra["value_world_cases"] = nv
+    if prop == "C07":
+        # types passed as arguments (type[...] annotations, C14's worlds without keywords): chains through call_next and f.next
+        from . import c14
+
+        trng = random.Random(seed * 271 + 7)
+        tjobs = []
+        for j in c14.gen_jobs(tier, seed + 900):
+            if any(m["kwn"] for m in j["world"]["methods"]):
+                continue
+            for m in j["world"]["methods"]:
+                m["body"] = trng.choice(["next", "fnext", "fnext", "leaf"])
+            j["id"] = "C07-t" + j["id"]
+            j["props"] = ["C07"]
+            tjobs.append(j)
+        tjobs = tjobs[: (90 if tier == "quick" else 2000)]
+        tres = pool.run(workers.typearg_cases, tjobs)
+        cases += tres
+        rep.extra["type_argument_cases"] = len(tres)
     skipped = [c for c in cases if "skip" in c]
     harness_bugs = [c for c in skipped if c["skip"].startswith("harness")]
     if harness_bugs:
